@@ -1127,7 +1127,9 @@ class _LazyLoader(
                         compile_context.compile_options._current_path[
                             rev.parent
                         ]
-                    ).lazyload(rev).process_compile_state(compile_context)
+                    )._set_relationship_strategy(
+                        rev, {"lazy": "select"}, _reconcile_to_other=True
+                    ).process_compile_state(compile_context)
 
         stmt = stmt._add_compile_state_func(
             _lazyload_reverse, self.parent_property
